@@ -3,6 +3,7 @@ mod crypto;
 mod ledger;
 mod libtap;
 mod oracle_cred;
+mod oracle_rtt;
 mod oracle_tx;
 mod oracle_twin;
 mod plan;
@@ -11,6 +12,7 @@ mod props;
 mod runner;
 mod server;
 mod show;
+mod stream;
 mod util;
 mod wire;
 mod world;
